@@ -550,10 +550,9 @@ def run_program(ctx, programs, schedule, mode='own', settings=None, kill_at=None
                 try:
                     return interps[i].run()
                 finally:
-                    # thread-local connections die with the thread; close explicitly so that a transaction a
-                    # killed client left open does not outlive it
-                    if kill_at and i in kill_at:
-                        close_object(objs[i])
+                    # close this thread's connection(s) so that a transaction a killed or crashed client left
+                    # open does not outlive it (tracing is still on: a close emits no event)
+                    close_object(objs[i])
             return p
         r = s.run([prog(i) for i in range(n)], list(schedule), warmups=[warm(o) for o in objs], kill_at=kill_at)
         log = r['log']
